@@ -13,6 +13,7 @@ import EngineModel.TracksV1.SpecFields
 import EngineModel.TracksV1.SpecLens
 import EngineModel.TracksV1.Accept
 import EngineModel.TracksV1.SpecLink
+import EngineModel.TracksV1.Txn
 
 namespace Drv
 namespace TracksV1
@@ -199,6 +200,8 @@ def splitField (toks : List String) : Option (Field × List String) :=
 structure St where
   db : Option Db := none
   vars : List (String × Int) := []
+  fault : Option Nat := none     -- `fault k`: the next create_track / update runs statement by statement (Txn.lean)
+  fired : Bool := false
 
 def lookupVar (st : St) (v : String) : Option Int := (st.vars.find? (·.1 == v)).map (·.2)
 
@@ -241,9 +244,36 @@ def step (st : St) (cmd : String) (args : List String) : St × String :=
     match Schema.ofName sch with
     | some s => ({ db := some ⟨s, []⟩, vars := [] }, "ok")
     | none => bad st "schema"
+  | "fault", [k] =>
+    match k.toNat? with
+    | some n => ({ st with fault := some n, fired := false }, "ok")
+    | none => bad st "fault"
+  | "fault.status", [] =>
+    ({ st with fault := none, fired := false }, "ok fired=" ++ (if st.fired then "1" else "0"))
   | "mktrack", v :: toks =>
     match st.db, runP pSnap toks with
     | some d, some x =>
+      -- under `fault k`: the statement-level run; what it leaves is what `v1_C01_txn_create` says
+      match st.fault, prepare fops x with
+      | some k, .ok pr =>
+        let id := nextId d
+        let out := EngineModel.Spec.Txn.call (some k) false (writeCmds fops d.schema x pr id false) d
+        let fired := out.trace.any (·.injected)
+        let st1 := { st with fired := fired, db := some out.conn.committed }
+        if out.raised then
+          if fired then (st1, "throw sqlite_error") else
+          match dbCreate fops d x with
+          | .throw e => (st1, "throw " ++ e.toString)
+          | _ => (st1, "bad-op txn-mismatch")
+        else
+          match dbCreate fops d x with
+          | .ok (d', id') =>
+            if id' = id && d'.tracks.length = out.conn.committed.tracks.length then
+              finishDb { st1 with vars := (v, id) :: st.vars.filter (·.1 != v) } out.conn.committed id
+                ("ok id=" ++ toString id) (Spec.NoNaN x)
+            else (st1, "bad-op txn-mismatch")
+          | _ => (st1, "bad-op txn-mismatch")
+      | _, _ =>
       match dbCreate fops d x with
       | .ok (d', id) =>
         let st' := { st with vars := (v, id) :: st.vars.filter (·.1 != v) }
@@ -254,6 +284,23 @@ def step (st : St) (cmd : String) (args : List String) : St × String :=
   | "update", v :: toks =>
     match st.db, lookupVar st v, runP pSnap toks with
     | some d, some id, some x =>
+      match st.fault, prepare fops x with
+      | some k, .ok pr =>
+        let out := EngineModel.Spec.Txn.call (some k) false (writeCmds fops d.schema x pr id true) d
+        let fired := out.trace.any (·.injected)
+        let st1 := { st with fired := fired, db := some out.conn.committed }
+        if out.raised then
+          if fired then (st1, "throw sqlite_error") else
+          match dbUpdate fops d id x with
+          | .throw e => (st1, "throw " ++ e.toString)
+          | _ => (st1, "bad-op txn-mismatch")
+        else
+          match dbUpdate fops d id x with
+          | .ok d' =>
+            if d'.rows id == out.conn.committed.rows id then finishDb st1 out.conn.committed id "ok" (Spec.NoNaN x)
+            else (st1, "bad-op txn-mismatch")
+          | _ => (st1, "bad-op txn-mismatch")
+      | _, _ =>
       match dbUpdate fops d id x with
       | .ok d' => finishDb st d' id "ok" (Spec.NoNaN x)
       | .throw e => (st, "throw " ++ e.toString)
@@ -381,6 +428,14 @@ def specTable (cmd : String) (args : List String) : Option String :=
           | none => "ok reject"
         | none => "bad-op v1spec.putfield value"
       | none => "bad-op v1spec.putfield field"
+  | "v1spec.normalizenan", sch :: toks =>
+    -- `normalize` extended to NaN (what the library does, `v1_C01_nan_total`)
+    some <| match Schema.ofName sch, runP pSnap toks with
+      | some s, some x =>
+        match Spec.normalizeNaN s x with
+        | some y => "ok " ++ sSnap y
+        | none => "ok reject"
+      | _, _ => "bad-op v1spec.normalizenan"
   | "v1spec.accepts", an :: toks =>
     -- the value/row part of `Spec.callAccepted`: `<is-analysed 0|1> <field> [index] <value>`
     some <| match splitField toks with
